@@ -95,6 +95,8 @@ def reds_in(ctx: Ctx, formulas):
         rounds += 1
         apps, consts = _collect(allf, set(ids))
         cands = list(consts.values())[:40]
+        ckey = tuple(c.get_id() for c in cands)
+        cache = ctx.__dict__.setdefault("_red_ax_cache", {})      # the obligations of one path share most lemma instances
         frontier = []
         for did, e in apps.items():
             r = ids[did]
@@ -103,14 +105,18 @@ def reds_in(ctx: Ctx, formulas):
                 r._axioms = []
             if e["nonground"] and (r.id, "q") not in done_keys:
                 done_keys.add((r.id, "q"))
-                ax = red_axioms(ctx, r, None, cands)
+                ax = cache.get((r.id, "q", ckey))
+                if ax is None:
+                    ax = cache[(r.id, "q", ckey)] = red_axioms(ctx, r, None, cands)
                 r._axioms.extend(ax)
                 frontier.extend(ax)
             for key, args in e["ground"].items():
                 if (r.id, key) in done_keys:
                     continue
                 done_keys.add((r.id, key))
-                ax = red_axioms(ctx, r, args, cands)
+                ax = cache.get((r.id, key, ckey))
+                if ax is None:
+                    ax = cache[(r.id, key, ckey)] = red_axioms(ctx, r, args, cands)
                 r._axioms.extend(ax)
                 frontier.extend(ax)
         allf.extend(frontier)
